@@ -244,6 +244,17 @@ def r03_3(ck, sa):
                'leaving the loop implies global_time >= end_time',
                'the scheduler loop can exit before global_time reaches '
                'end_time', w)
+    # a forced call always gets (at least) one pass, even when the clock
+    # already stands at end_time: leaving the loop implies the flag is off
+    fparams = [x for x in A.params_of(f.node)[2:]]
+    forced = [x for x in fparams if ('falsy', x) in atoms]
+    ck.require(bool(forced), 'R03.3', f, 'while ' + A.unparse(w.test),
+               'the loop cannot be left (or skipped) while forced completion '
+               'is still requested',
+               'with force_complete the scheduler loop can be skipped when '
+               'global_time already equals end_time: processes that are '
+               'behind the clock are never brought up to it (update(0) / '
+               'run_for(0, force_complete=True) do nothing)', w)
     # end_time definition
     defs = local_defs(f.node).get('end_time', [])
     ok = len(defs) == 1 and isinstance(defs[0].value, ast.BinOp) and \
@@ -363,6 +374,12 @@ def r03_4(ck, sa):
                     un = cfg.node(n)
                     if un is None or un in rounds or un == dn:
                         continue
+                    ust0 = cfg.info[un]['stmt']
+                    if isinstance(ust0, (ast.Assign, ast.AugAssign)) and \
+                            cfg.info[un]['kind'] == 'stmt' and any(
+                                A.is_name(t, name)
+                                for t in A.assigned_targets(ust0)):
+                        continue    # re-manufactured from itself
                     # a test that only decides whether the value is
                     # re-manufactured in its own body is not a use
                     ust = cfg.info[un]['stmt']
